@@ -486,6 +486,8 @@ class MTSPSpec(RSpec):
             out.append((f"rect4-m{m}", dict(locs=RECT, num_agents=m, _exact=True)))
             out.append((f"diamond5-m{m}", dict(locs=[C] + DIAMOND, num_agents=m, _exact=True)))
         out.append(("unit4-m2", dict(locs=[(0.0, 0.0), (1.0, 0.0), (1.0, 1.0), (0.0, 1.0)], num_agents=2, _exact=True)))
+        # a customer that sits ON the depot: a sub-tour of length zero still uses up an agent
+        out.append(("ondepot4-m2", dict(locs=[C, C, (0.75, 0.5), (0.5, 0.25)], num_agents=2, _exact=True)))
         if tier != "quick":
             out.append(("generic6-m3", dict(locs=GENERIC[:6], num_agents=3)))
         return out
